@@ -11,6 +11,8 @@ CONSTANTS
   Shapes = {"str"}
   FixSets = {{}}
   Causes = {"peer"}
+  KeepCreatedAt = FALSE
+  UseRequestId = FALSE
   Lookups = FALSE
   WritingLookup = FALSE
   Emit = FALSE
